@@ -256,7 +256,7 @@ func c11View(v *c11Val, kind string, i, j int, prov string) *c11Val {
 var c11Ops = []string{"list", "vector", "literal", "sorted-map", "to-bytes", "alias",
 	"slice-list", "slice-vector", "cdr", "rest", "slice-bytes",
 	"append-list", "append-vector", "append-vector-zero", "append-bytes", "concat-list", "concat-vector", "cons", "reverse", "map", "select", "reject", "zip", "insert-index", "insert-sorted",
-	"assoc", "dissoc", "keys", "nest-list", "nest-map", "get",
+	"assoc", "dissoc", "keys", "nest-list", "nest-map", "get", "insert-index-elem", "insert-sorted-elem", "cons-elem", "append-elem",
 	"append!", "append!-bind", "append-bytes!", "assoc!", "dissoc!", "stable-sort", "stable-sort-bind", "stable-sort-view-inline", "append!-view-inline", "append!-append-result-inline"}
 
 // c11Step generates one operation: its lisp source and its effect on the model.
@@ -555,6 +555,38 @@ func c11Step(r *fw.RNG, h *c11Heap) (src, opname, sig string) {
 		}
 		name := h.bind(v.m[k])
 		return fmt.Sprintf("(set '%s (get %s %q))", name, n, k), op, op + "|" + v.m[k].kind
+	case "insert-index-elem", "insert-sorted-elem", "cons-elem", "append-elem":
+		// a CONTAINER stored as an element by a non-mutating builtin: the result is fresh
+		// storage whose new element is the very value that was passed (a later change of
+		// that value shows through the result, and the other way round)
+		nv, v := h.pick(r, func(v *c11Val) bool { return c11IsSeq(v) && v.small() && (op != "cons-elem" || c11IsList(v)) })
+		nx, x := h.pick(r, func(v *c11Val) bool { return v.kind != "int" && v.kind != "bytes" && v.small() })
+		if v == nil || x == nil {
+			return "", "", ""
+		}
+		kind := fw.Pick(r, []string{"list", "vector"})
+		e := v.elems()
+		switch op {
+		case "insert-index-elem":
+			i := r.Range(0, v.n)
+			cs := append(c11CopyCells(e[:i]), x)
+			cs = append(cs, e[i:]...)
+			return setq(c11Seq(kind, cs, "fresh-nested"), fmt.Sprintf("(insert-index '%s %s %d %s)", kind, nv, i, nx)), op, op + "|" + v.kind + "|" + x.kind
+		case "insert-sorted-elem":
+			// a constant predicate decides the position whatever the elements are
+			if r.Bool() {
+				cs := append([]*c11Val{x}, e...)
+				return setq(c11Seq(kind, cs, "fresh-nested"), fmt.Sprintf("(insert-sorted '%s %s (lambda (a b) true) %s)", kind, nv, nx)), op, op + "|front|" + v.kind + "|" + x.kind
+			}
+			cs := append(c11CopyCells(e), x)
+			return setq(c11Seq(kind, cs, "fresh-nested"), fmt.Sprintf("(insert-sorted '%s %s (lambda (a b) false) %s)", kind, nv, nx)), op, op + "|back|" + v.kind + "|" + x.kind
+		case "cons-elem":
+			cs := append([]*c11Val{x}, e...)
+			return setq(c11Seq("list", cs, "fresh-nested"), fmt.Sprintf("(cons %s %s)", nx, nv)), op, op + "|" + v.kind + "|" + x.kind
+		default:
+			cs := append(c11CopyCells(e), x, c11Int(3))
+			return setq(c11Seq(kind, cs, "fresh-nested"), fmt.Sprintf("(append '%s %s %s 3)", kind, nv, nx)), op, op + "|" + v.kind + "|" + x.kind
+		}
 	case "nest-list":
 		n1, v1 := h.pick(r, func(v *c11Val) bool { return v.kind != "int" && v.small() })
 		n2, v2 := h.pick(r, func(v *c11Val) bool { return v.kind != "int" && v.small() })
